@@ -300,6 +300,8 @@ def conformance_stage(kind, variant, params):
                     '--out', trace]
         elif kind == 'script':
             args = ['script', '--in', os.path.join(VERIF, params['file']), '--out', trace]
+        elif kind == 'layout':
+            args = ['layout', '--out', trace]
         else:
             args = []
         if kind == 'replay' and (params.get('n') or 0) == 0:
@@ -354,9 +356,42 @@ def conformance_stage(kind, variant, params):
         res['violations'] = viols
         # keep a small sample of the trace as evidence, drop the bulk
         with open(trace) as fh:
-            sample = [json.loads(next(fh)) for _ in range(12) if True]
+            import itertools
+            sample = [json.loads(l) for l in itertools.islice(fh, 12)]
         res['sample'] = sample
         os.unlink(trace)
+        return res
+
+    return stage(key, run)
+
+
+def ptr_stage(variant):
+    """C20 table part: TLC enumerates the expected comparison results (spec/PtrSpec.tla, whose laws it checks),
+    the harness evaluates them on Cc<T> and on plain T."""
+    key = ['ptr', variant]
+
+    def run(d):
+        rc, out = tlc('PtrSpec.tla', 'PtrSpec.cfg', d, workers=1, heap='1g', timeout=300)
+        txt = open(out, errors='replace').read()
+        m = re.search(r'<<"PT", "(.*)">>', txt)
+        if not m or 'No error has been found' not in txt:
+            raise ToolError('PtrSpec.tla failed:\n' + txt[-2000:])
+        table = m.group(1).encode('utf-8').decode('unicode_escape')
+        tf = os.path.join(d, 'table.json')
+        with open(tf, 'w') as fh:
+            fh.write(table)
+        rep = run_harness(variant, ['ptr', '--in', tf])
+        res = {'kind': 'ptr', 'variant': variant, 'params': {}, 'harness': rep, 'violations': [], 'events': 0, 'runs': 0, 'states': 2, 'transitions': 2}
+        if rep.get('crash'):
+            res['crash'] = True
+            return res
+        r = rep['result']
+        res['runs'] = r['rows']
+        res['events'] = r['rows']
+        res['sample'] = json.loads(table)[:3]
+        for b in r['bad']:
+            res['violations'].append({'run': 0, 'prop': 'C20', 'msg': 'Cc<T> does not behave like T: %s' % json.dumps(b), 'n': 0, 'faulted': False, 'resur': False,
+                                      'behaviour': [b], 'signature': 'ptr-table', 'variant': variant, 'source': 'ptr'})
         return res
 
     return stage(key, run)
@@ -537,6 +572,9 @@ def run_check(pid, tier, seed):
         jobs.append((s['kind'], s['variant'], params))
     def _conf(j):
         k, v, p = j
+        if k == 'ptr':
+            log('conformance ptr', v)
+            return ptr_stage(v)
         log('conformance', k, v, {x: y for x, y in p.items() if x != 'file'} if k != 'script' else p)
         return conformance_stage(k, v, p)
     with cf.ThreadPoolExecutor(max_workers=3) as ex:
